@@ -190,7 +190,8 @@ class BVV:
     @normalize_types
     @compare_bits
     def __lshift__(self, o):
-        return BVV(self.value << o.value, self.bits)
+        # a shift by the width or more yields zero; clamp the amount so that Python does not build a huge integer
+        return BVV(self.value << min(o.value, self.bits), self.bits)
 
     @normalize_types
     @compare_bits
